@@ -69,6 +69,7 @@ def showErr : Option Err → String
   | some .fwrite => "err fwrite"
   | some .rbfail => "err rbfail"
   | some .fuel => "MODEL-FUEL"
+  | some .cancel => "err cancel"
 
 /-- model stores from an observed dump: a tip that cannot be read is a tip beyond the file -/
 def storesOf (o : Obs) : Stores :=
@@ -85,7 +86,7 @@ def runCase : CaseFn := fun c => Id.run do
   let mut post1 : Option Obs := none
   let mut mst : Option Stores := none       -- model state
   let mut diverged := false
-  let cfg1 : Cfg := { bs := nat! (field hdr "bs"), failB := (field hdr "failb").toNat?, failF := (field hdr "failf").toNat? }
+  let cfg1 : Cfg := { bs := nat! (field hdr "bs"), failB := (field hdr "failb").toNat?, failF := (field hdr "failf").toNat?, cancelAt := (field hdr "cancel").toNat? }
   let cfg2 : Cfg := { bs := cfg1.bs }
   for (ln, line) in c.lines do
     let (op, obs) := splitObs line
@@ -139,7 +140,10 @@ def runCase : CaseFn := fun c => Id.run do
             else if !sampleOk p F then
               out := out.push s!"ORACLE-FAIL C14 case {c.num} line {ln}: shape={if shape == "" then "success-contradicts-existing" else shape} import reported success although the file contradicts the stores at the first or last overlapping height: {showObs post}"
           else if !failureOk p F post then
-            out := out.push s!"ORACLE-FAIL C14 case {c.num} line {ln}: shape={if shape == "" then "failure-clause" else shape} import reported {lastRes} and left the stores unusable/inconsistent/with unvalidated contents: {showObs post}"
+            if lastRes == "err cancel" && failContentOk p F post && !chainOk p post then
+              out := out.push s!"ORACLE-FAIL C14 case {c.num} line {ln}: shape={if shape == "" then "cancelled-import-unvalidated" else shape} the import's context was cancelled (first noticed at poll {field hdr "cancel"}), it reported the failure, but the stores now hold a block header that fails validation or does not connect to its predecessor (flag 0 / prev in id:prev:valid): {showObs post}"
+            else
+              out := out.push s!"ORACLE-FAIL C14 case {c.num} line {ln}: shape={if shape == "" then "failure-clause" else shape} import reported {lastRes} and left the stores unusable/inconsistent/with unvalidated contents: {showObs post}"
         else if firstOk then
           if let some p1 := post1 then
             if !idempotentOk p1 (lastRes == "ok") post then
